@@ -140,9 +140,19 @@ func diff(v0, v1 any, one bool, ignores ...Path) (diffs []Path) {
 			diffs = append(diffs, Path{nil})
 		}
 	case float32, float64:
-		f0, _ := asFloat(v0)
-		if f1, ok := asFloat(v1); !ok || f0 != f1 {
-			diffs = append(diffs, Path{nil})
+		switch v1.(type) {
+		case int, int8, int16, int32, int64, uint, uint8, uint16, uint32, uint64, gen.Int:
+			// Compare exactly, just like with the integer as the first
+			// argument. A float64 can not hold every int64 so converting
+			// the integer to a float would make neighbours equal.
+			if !sameInt(v1, v0) {
+				diffs = append(diffs, Path{nil})
+			}
+		default:
+			f0, _ := asFloat(v0)
+			if f1, ok := asFloat(v1); !ok || f0 != f1 {
+				diffs = append(diffs, Path{nil})
+			}
 		}
 	case string:
 		if t1, ok := v1.(string); !ok || t0 != t1 {
